@@ -78,7 +78,7 @@ class DsMachine(T.MemMachine):
         return T.MemMachine.step(self, w, where)
 
 
-def _tables(ctx):
+def _tables(ctx, fn='generateProgram'):
     F, hs = jit.handlers(ctx, 'a64')
     g = F.glob('randomx::IntRegMap') if F.has_glob('randomx::IntRegMap') else (F.glob('IntRegMap') if F.has_glob('IntRegMap') else None)
     if g is None or not g.get('init') or g['init']['k'] != 'InitList':
@@ -86,7 +86,7 @@ def _tables(ctx):
     regmap = [val(e) for e in g['init']['e']]
     if len(regmap) != 8 or None in regmap:
         raise AnalysisBroken('A64-DSREAD-HSEM: IntRegMap is not a table of 8 constants')
-    gp = F.func('randomx::JitCompilerA64::generateProgram')
+    gp = F.func('randomx::JitCompilerA64::' + fn)
     consts = []
     for x in walk(gp['body']):
         if x['k'] == 'Call' and x.get('name') == 'emit32' and x.get('a'):
@@ -205,3 +205,80 @@ def rule_dsread(ctx, R):
         raise AnalysisBroken('A64-DSREAD-HSEM: ' + undecided[0])
     for u in undecided:
         R.note('A64-DSREAD-HSEM: ' + u)
+
+
+@memoised('A64-LOOPLOAD')
+def rule_loopload(ctx, R):
+    R.rule('A64-LOOPLOAD', 'the load half of the A64 loop (specification 4.6.2 steps 2-3), with the two scratchpad masks the generator writes, executed on terms: r_j ^= the j-th quadword at scratchpad + (spMix low half & L3 mask), '
+           'and the eight pairs of 32-bit integers at scratchpad + (spMix high half & L3 mask) + 8k go, sign-extended, to the two lanes of f0-f3 / e0-e3 (v16 + k) before the conversion', min_instances=20)
+    FI = astq.Facts(ctx, 'K0')
+    mask = FI.const('randomx::ScratchpadL3Mask64')
+    o = ctx.obj('a64')
+    P = rtasm.Prog(o, 'a64')
+    R.saw(unit='src/jit_compiler_a64_static.S', config='K2')
+    for fn in ('generateProgram', 'generateProgramLight'):
+        _loopload_one(ctx, R, P, mask, fn)
+
+
+def _loopload_one(ctx, R, P, mask, fn):
+    F, regmap, gp, consts, gen = _tables(ctx, fn)
+    R.saw(fn=gp['q'])
+    lo, hi = P.sym('randomx_program_aarch64_main_loop'), P.sym('randomx_program_aarch64_vm_instructions')
+    ins = [P.ins[a] for a in P.order if lo <= a < hi and P.ins[a].kind != 'data']
+    where = 'src/jit_compiler_a64_static.S:randomx_program_aarch64_main_loop'
+    # the two `and w, w, #mask` words of generateProgram that land on the second and third instruction of the loop
+    ph = [i for i in ins[:4] if (i.raw & 0x7F800000) == 0x12000000]
+    if len(ph) != 2:
+        raise AnalysisBroken('A64-LOOPLOAD: expected two placeholder `and` instructions at the head of the loop, found %d' % len(ph))
+    patch = {}
+    for i in ph:
+        rd, rn = i.raw & 31, (i.raw >> 5) & 31
+        cand = [v for v, ln in consts if (v & 0x7F800000) == 0x12000000 and (v & 31) == rd and ((v >> 5) & 31) == rn]
+        if len(cand) != 1:
+            raise AnalysisBroken('A64-LOOPLOAD: no unique constant `and w%d, w%d` word in %s' % (rd, rn, fn))
+        patch[i.addr] = cand[0]
+    first_fp = next((k for k, i in enumerate(ins) if i.mnem == 'ldpsw'), None)
+    if first_fp is None:
+        raise AnalysisBroken('A64-LOOPLOAD: no ldpsw in the loop head')
+    m = DsMachine(regmap)
+    tr = []
+    for i in ins[:first_fp]:
+        tr.append(m.step(patch.get(i.addr, i.raw), where))
+    sp, mix = atom(('undef', 2)), atom(('undef', 10))
+    a0 = add(X.and_(mix, const(mask)), sp)
+    a1 = add(X.and_(V.srl(mix, 32), const(mask)), sp)
+    for k in range(8):
+        want = xor(atom(('reg', k)), X.ld64(add(a0, const(8 * k))))
+        got = m.get(regmap[k])
+        if got == want:
+            R.ok('%s: r%d' % (fn, k), where)
+        else:
+            diff = None
+            for vals in T.VALUATIONS:
+                if T.term_eval(got.canon(), vals) != T.term_eval(want.canon(), vals):
+                    diff = vals
+                    break
+            if diff is None:
+                raise AnalysisBroken('A64-LOOPLOAD: r%d is %s, expected %s; undecided' % (k, T.term_show(got, None), T.term_show(want, None)))
+            R.violation('%s: r%d' % (fn, k), where, expected=T.term_show(want, None), found='%s after `%s`' % (T.term_show(got, None), ' ; '.join(tr)))
+    # the base of the floating-point loads
+    fp = ins[first_fp:]
+    base = (fp[0].raw >> 5) & 31
+    R.check(m.get(base) == a1, '%s: address of the f / e loads (x%d)' % (fn, base), where, expected=T.term_show(a1, None), found=T.term_show(m.get(base), None))
+    # pairs: ldpsw xa, xb, [base, #8k]; mov v(16+k).d[0], xa; mov v(16+k).d[1], xb
+    cur = None
+    lanes = {}
+    for i in fp:
+        if i.mnem == 'ldpsw':
+            mm = rtasm.re.match(r'^\[(\w+)(?:,\s*#(\d+))?\]$', i.ops[2])
+            cur = (rtasm.a64_reg(i.ops[0]), rtasm.a64_reg(i.ops[1]), rtasm.a64_reg(mm.group(1)) if mm else None, int(mm.group(2) or 0) if mm else None)
+        elif i.mnem == 'mov' and rtasm.re.match(r'^v\d+\.d\[[01]\]$', i.ops[0]) and cur:
+            v, lane = int(i.ops[0][1:].split('.')[0]), int(i.ops[0][-2])
+            srcr = rtasm.a64_reg(i.ops[1])
+            lanes[(v, lane)] = (cur[2], cur[3] + (0 if srcr == cur[0] else 4 if srcr == cur[1] else 99))
+    want_l = {(16 + k, l): ('x%d' % base, 8 * k + 4 * l) for k in range(8) for l in range(2)}
+    R.check(lanes == want_l, '%s: lanes of f0-f3 / e0-e3' % fn, where, expected='v(16+k).d[l] = sign-extended 32-bit integer at [spAddr1 + 8k + 4l]', found=sorted(lanes.items())[:6])
+    conv = sorted(int(i.ops[0][1:].split('.')[0]) for i in fp if i.mnem == 'scvtf')
+    R.check(conv == list(range(16, 24)), '%s: conversion of all eight registers' % fn, where, expected='scvtf on v16..v23', found=conv)
+    em = sorted((int(i.ops[0][1:].split('.')[0]), i.ops[1], i.ops[2]) for i in fp if i.mnem in ('bif', 'bit', 'bsl', 'and', 'orr') and i.ops[0].startswith('v'))
+    R.check([e[0] for e in em] == [20, 21, 22, 23] and len({e[1:] for e in em}) == 1, '%s: e-register mask' % fn, where, expected='one mask operation with the same two mask registers on v20..v23 only', found=em)
